@@ -499,3 +499,43 @@ def _loop_cover(a, n, good, rets):
             return False, "a path from the Some edge reaches %s without handing the element to the sink" % ("the next next()" if x == n.bb else "a return")
         work.extend(a.edges.get(x, []))
     return True, "every Some edge passes through the sink on the yielded element before the next next()"
+
+
+def pipe_len(a, t):
+    """Exact number of items an (unconsumed) iterator pipeline term yields, as a Poly, or None when not determined.
+    Range lo..hi (lo <= hi is the caller's obligation where it matters: 0..N always holds), slice iterators, map / enumerate (length preserving),
+    zip (the shorter side), rev (same length)."""
+    if not isinstance(t, tuple):
+        return None
+    if len(t) == 3 and t[0] == "A" and isinstance(t[1], tuple) and t[1][:2] == ("adt", "core::ops::Range") and len(t[2]) == 2:
+        lo, hi = t[2]
+        if lo[0] == "I" and hi[0] == "I" and lo[1].is_const() and lo[1].const_value() == 0:
+            return hi[1]
+        return None
+    if len(t) >= 4 and t[0] == "V" and t[1] == "iter":
+        k = t[2]
+        if k == "slice" and t[3][0] == "P":
+            return t[3][3]
+        if k in ("map", "enumerate", "rev", "by_ref", "copied", "cloned"):
+            return pipe_len(a, t[3])
+        if k == "zip" and len(t) == 5:
+            x, y = pipe_len(a, t[3]), pipe_len(a, t[4])
+            if x is not None and y is not None and x == y:
+                return x
+            return None
+    return None
+
+
+def ub_hints(a):
+    """Optimiser hints whose violation is undefined behaviour, in both spellings: `if !c { unreachable_unchecked() }` and `assert_unchecked(c)`.
+    Returns [(call site, facts under which the hint would be violated)]: the call's path facts for unreachable_unchecked, the path facts plus
+    the negated condition for assert_unchecked. A hint is sound iff those facts (with the function's precondition) are contradictory."""
+    out = []
+    for c in a.calls:
+        if c.fn == "core::hint::unreachable_unchecked":
+            out.append((c, frozenset(c.facts)))
+        elif c.fn == "core::hint::assert_unchecked" and c.args and c.args[0][0] == "B":
+            out.append((c, frozenset(c.facts) | frozenset(a.cond_facts(c.args[0][1], False))))
+        elif c.fn == "core::hint::assert_unchecked":
+            out.append((c, None))
+    return out
